@@ -3,22 +3,24 @@
    from the Go AST of the current source tree on every run (harness/sdfgen, harness/exprgen);
    each theorem below says that the definition generated from one Go function is equal, for all
    arguments and over an arbitrary `O : Ops`, to the hand-written model function the rest of the
-   development reasons about (Geo/Vec.v, Sdf/Union2.v, Sdf/Shape.v).  The proofs (Sdf/GenEq.v) are
-   by conversion, so a theorem holds exactly as long as the Go function and the model function
-   are the same term up to let-structure: a semantic edit of the Go function breaks the theorem
-   named after it; reformatting, comments, parentheses, renaming of locals do not.
-   For Evaluate methods the receiver fields are parameters of the generated definition; the
-   theorem substitutes what the model constructor k_xxx pre-computes and speaks about the closure
-   of the object k_xxx returns (the constructors themselves are not translated).
-   `_ctor`    : a (loop-free) constructor: the generated function, which returns None where Go
-                returns nil / an error and otherwise (Evaluate, BoundingBox) of the struct it
-                built, is the model's k_xxx object for object; wrapped SDFs are non-nil
-   `_go`      : the generated function equals a model-level term following the Go code exactly
-   `_partial` : equality with the hand model holds only under the stated hypothesis, because the
-                hand model deviates from the Go source (see Sdf/GenEq.v header)
-   `_refuted` : float64 witness that the unconditional equality is false. *)
+   development reasons about (Geo/Vec.v, Geo/Box.v, Geo/Mat.v, Sdf/Union2.v, Sdf/Shape.v).  The
+   proofs (Sdf/GenEq.v) are by conversion, so a theorem holds exactly as long as the Go function
+   and the model function are the same term up to let-structure: a semantic edit of the Go
+   function (or of the model function) breaks the theorem named after it; reformatting, comments,
+   parentheses, renaming of locals, reordering of independent statements do not.
+   TRANSL_<Type>      (Circle, Cone, Sor, ...): the Evaluate method.  The receiver fields are
+                      parameters of the generated definition; the theorem substitutes what the
+                      model constructor k_xxx pre-computes and speaks about the closure of the
+                      object k_xxx returns.
+   TRANSL_<Func>_ctor : a (loop-free) constructor: the generated function, which returns None
+                      where Go returns nil / an error and otherwise (Evaluate, BoundingBox) of the
+                      struct it built, is the model's k_xxx object for object (argument checks,
+                      pre-computed fields, closure, bounding box); wrapped SDFs are non-nil.
+   Not covered (loops): Union, Array, RotateUnion, RotateCopy, Revolve's constructor, the
+   twisted extrusions' constructors, MinMaxDist2, VecSet.Min/Max; those stay tied by the sampled
+   correspondence of C01/C02/C03/C16 only. *)
 From Coq Require Import ZArith List Bool.
-From Sdfx Require Import Num.Ops Num.FInst Geo.Vec Geo.Box Geo.Mat Sdf.Union2 Sdf.Shape Generated.SdfExpr Sdf.GenEq.
+From Sdfx Require Import Num.Ops Geo.Vec Geo.Box Geo.Mat Sdf.Union2 Sdf.Shape Generated.SdfExpr Sdf.GenEq.
 Import OpsNotations ListNotations.
 Local Open Scope ops_scope.
 
@@ -122,16 +124,10 @@ Theorem TRANSL_v2_Clamp : forall (O : Ops),
 Proof. exact (@v2_Clamp_eq). Qed.
 Print Assumptions TRANSL_v2_Clamp.
 
-Theorem TRANSL_v2_DivScalar_go : forall (O : Ops),
-    forall (a : V2 O) (k : T O), v2_Vec_DivScalar a k = v2muls a (o1 O / k).
-Proof. exact (@v2_DivScalar_go). Qed.
-Print Assumptions TRANSL_v2_DivScalar_go.
-
-Theorem TRANSL_v2_DivScalar_partial : forall (O : Ops),
-    (forall x k : T O, x / k = x * (o1 O / k)) ->
+Theorem TRANSL_v2_DivScalar : forall (O : Ops),
     forall (a : V2 O) (k : T O), v2_Vec_DivScalar a k = v2divs a k.
-Proof. exact (@v2_DivScalar_modulo). Qed.
-Print Assumptions TRANSL_v2_DivScalar_partial.
+Proof. exact (@v2_DivScalar_eq). Qed.
+Print Assumptions TRANSL_v2_DivScalar.
 
 Theorem TRANSL_v3_Add : forall (O : Ops),
     forall a b : V3 O, v3_Vec_Add a b = v3add a b.
@@ -233,16 +229,10 @@ Theorem TRANSL_v3_Clamp : forall (O : Ops),
 Proof. exact (@v3_Clamp_eq). Qed.
 Print Assumptions TRANSL_v3_Clamp.
 
-Theorem TRANSL_v3_DivScalar_go : forall (O : Ops),
-    forall (a : V3 O) (k : T O), v3_Vec_DivScalar a k = v3muls a (o1 O / k).
-Proof. exact (@v3_DivScalar_go). Qed.
-Print Assumptions TRANSL_v3_DivScalar_go.
-
-Theorem TRANSL_v3_DivScalar_partial : forall (O : Ops),
-    (forall x k : T O, x / k = x * (o1 O / k)) ->
+Theorem TRANSL_v3_DivScalar : forall (O : Ops),
     forall (a : V3 O) (k : T O), v3_Vec_DivScalar a k = v3divs a k.
-Proof. exact (@v3_DivScalar_modulo). Qed.
-Print Assumptions TRANSL_v3_DivScalar_partial.
+Proof. exact (@v3_DivScalar_eq). Qed.
+Print Assumptions TRANSL_v3_DivScalar.
 
 Theorem TRANSL_v3_LTEZero : forall (O : Ops),
     forall a : V3 O, v3_Vec_LTEZero a = v3_lte_zero a.
@@ -350,12 +340,12 @@ Proof. exact (@Box3_Vertices_eq). Qed.
 Print Assumptions TRANSL_Box3_Vertices.
 
 Theorem TRANSL_M33_MulBox : forall (O : Ops),
-    forall (a : list T O) (box : Box2 O), sdf_M33_MulBox a box = m33_mulbox a box.
+    forall (a : list (T O)) (box : Box2 O), sdf_M33_MulBox a box = m33_mulbox a box.
 Proof. exact (@M33_MulBox_eq). Qed.
 Print Assumptions TRANSL_M33_MulBox.
 
 Theorem TRANSL_M44_MulBox : forall (O : Ops),
-    forall (a : list T O) (box : Box3 O), sdf_M44_MulBox a box = m44_mulbox a box.
+    forall (a : list (T O)) (box : Box3 O), sdf_M44_MulBox a box = m44_mulbox a box.
 Proof. exact (@M44_MulBox_eq). Qed.
 Print Assumptions TRANSL_M44_MulBox.
 
@@ -424,30 +414,17 @@ Theorem TRANSL_TwistExtrude : forall (O : Ops),
 Proof. exact (@TwistExtrude_eq). Qed.
 Print Assumptions TRANSL_TwistExtrude.
 
-Theorem TRANSL_ScaleExtrude_go : forall (O : Ops),
+Theorem TRANSL_ScaleExtrude : forall (O : Ops),
     forall (height : T O) (scale : V2 O) (p : V3 O),
-    sdf_ScaleExtrude height scale p = ex_scale_go height scale p.
-Proof. exact (@ScaleExtrude_go). Qed.
-Print Assumptions TRANSL_ScaleExtrude_go.
+    sdf_ScaleExtrude height scale p = ex_scale height scale p.
+Proof. exact (@ScaleExtrude_eq). Qed.
+Print Assumptions TRANSL_ScaleExtrude.
 
-Theorem TRANSL_ScaleTwistExtrude_go : forall (O : Ops),
-    forall (height twist : T O) (scale : V2 O) (p : V3 O),
-    sdf_ScaleTwistExtrude height twist scale p = ex_scaletwist_go height twist scale p.
-Proof. exact (@ScaleTwistExtrude_go). Qed.
-Print Assumptions TRANSL_ScaleTwistExtrude_go.
-
-Theorem TRANSL_ScaleExtrude_partial : forall (O : Ops),
-    (forall x k : T O, x / k = x * (o1 O / k)) ->
-    forall (height : T O) (scale : V2 O) (p : V3 O), sdf_ScaleExtrude height scale p = ex_scale height scale p.
-Proof. exact (@ScaleExtrude_modulo). Qed.
-Print Assumptions TRANSL_ScaleExtrude_partial.
-
-Theorem TRANSL_ScaleTwistExtrude_partial : forall (O : Ops),
-    (forall x k : T O, x / k = x * (o1 O / k)) ->
+Theorem TRANSL_ScaleTwistExtrude : forall (O : Ops),
     forall (height twist : T O) (scale : V2 O) (p : V3 O),
     sdf_ScaleTwistExtrude height twist scale p = ex_scaletwist height twist scale p.
-Proof. exact (@ScaleTwistExtrude_modulo). Qed.
-Print Assumptions TRANSL_ScaleTwistExtrude_partial.
+Proof. exact (@ScaleTwistExtrude_eq). Qed.
+Print Assumptions TRANSL_ScaleTwistExtrude.
 
 Theorem TRANSL_sdfBox2d : forall (O : Ops),
     forall p s : V2 O, sdf_sdfBox2d p s = sdf_box2d p s.
@@ -581,18 +558,11 @@ Theorem TRANSL_ExtrudeRounded : forall (O : Ops),
 Proof. exact (@ExtrudeRounded_eq). Qed.
 Print Assumptions TRANSL_ExtrudeRounded.
 
-Theorem TRANSL_Loft_go : forall (O : Ops),
-    forall (f0 f1 : V2 O -> T O) sh round p,
-    sdf_LoftSDF3_Evaluate f0 f1 sh round p = loft_ev_go f0 f1 sh round p.
-Proof. exact (@Loft_go). Qed.
-Print Assumptions TRANSL_Loft_go.
-
-Theorem TRANSL_Loft_partial : forall (O : Ops),
+Theorem TRANSL_Loft : forall (O : Ops),
     forall (s0 s1 : Obj2 O) height round o p, k_loft s0 s1 height round = Some o ->
-    ((height / two) - round =? o0 O) = false ->
     sdf_LoftSDF3_Evaluate (ev2 s0) (ev2 s1) ((height / two) - round) round p = ev3 o p.
-Proof. exact (@Loft_modulo). Qed.
-Print Assumptions TRANSL_Loft_partial.
+Proof. exact (@Loft_eq). Qed.
+Print Assumptions TRANSL_Loft.
 
 Theorem TRANSL_Transform3 : forall (O : Ops),
     forall (s : Obj3 O) m o p, k_transform3 s m = Some o ->
@@ -682,7 +652,7 @@ Proof. exact (@Cut2D_ctor). Qed.
 Print Assumptions TRANSL_Cut2D_ctor.
 
 Theorem TRANSL_Transform2D_ctor : forall (O : Ops),
-    forall (s : Obj2 O) (m : list T O),
+    forall (s : Obj2 O) (m : list (T O)),
     option_map obj2_of (sdf_Transform2D (ev2 s) (bb2 s) m) = k_transform2 s m.
 Proof. exact (@Transform2D_ctor). Qed.
 Print Assumptions TRANSL_Transform2D_ctor.
@@ -740,7 +710,7 @@ Proof. exact (@ExtrudeRounded3D_ctor). Qed.
 Print Assumptions TRANSL_ExtrudeRounded3D_ctor.
 
 Theorem TRANSL_Transform3D_ctor : forall (O : Ops),
-    forall (s : Obj3 O) (m : list T O),
+    forall (s : Obj3 O) (m : list (T O)),
     option_map obj3_of (sdf_Transform3D (ev3 s) (bb3 s) m) = k_transform3 s m.
 Proof. exact (@Transform3D_ctor). Qed.
 Print Assumptions TRANSL_Transform3D_ctor.
@@ -787,31 +757,14 @@ Theorem TRANSL_Shell3D_ctor : forall (O : Ops),
 Proof. exact (@Shell3D_ctor). Qed.
 Print Assumptions TRANSL_Shell3D_ctor.
 
-Theorem TRANSL_ScaleExtrude3D_ctor_partial : forall (O : Ops),
-    (forall x k : T O, x / k = x * (o1 O / k)) ->
+Theorem TRANSL_ScaleExtrude3D_ctor : forall (O : Ops),
     forall (s : Obj2 O) (height : T O) (scale : V2 O),
     option_map obj3_of (sdf_ScaleExtrude3D (ev2 s) (bb2 s) height scale) = k_scaleextrude s height scale.
-Proof. exact (@ScaleExtrude3D_ctor_modulo). Qed.
-Print Assumptions TRANSL_ScaleExtrude3D_ctor_partial.
+Proof. exact (@ScaleExtrude3D_ctor). Qed.
+Print Assumptions TRANSL_ScaleExtrude3D_ctor.
 
-Theorem TRANSL_Loft3D_ctor_partial : forall (O : Ops),
+Theorem TRANSL_Loft3D_ctor : forall (O : Ops),
     forall (s0 s1 : Obj2 O) (height round : T O),
-    ((height / two) - round =? o0 O) = false ->
     option_map obj3_of (sdf_Loft3D (ev2 s0) (bb2 s0) (ev2 s1) (bb2 s1) height round) = k_loft s0 s1 height round.
-Proof. exact (@Loft3D_ctor_modulo). Qed.
-Print Assumptions TRANSL_Loft3D_ctor_partial.
-
-(* float64 witnesses of the two deviations of the hand model (Sdf/GenEq.v: dev_a = (3,3),
-   dev_k = 10; dev_s0, dev_s1 = constant fields 1 and 3, height 2, round 1, p = origin) *)
-Theorem TRANSL_DivScalar_refuted : vx (v2_Vec_DivScalar dev_a dev_k) <> vx (v2divs dev_a dev_k).
-Proof. exact divscalar_deviates_float. Qed.
-Print Assumptions TRANSL_DivScalar_refuted.
-
-Theorem TRANSL_Loft_refuted :
-  sdf_LoftSDF3_Evaluate (ev2 dev_s0) (ev2 dev_s1) ((dev_height / two) - dev_round) dev_round dev_p = o1 FOps /\
-  match k_loft dev_s0 dev_s1 dev_height dev_round with
-  | Some o => PrimFloat.is_nan (ev3 o dev_p) = true
-  | None => False
-  end.
-Proof. exact loft_deviates_float. Qed.
-Print Assumptions TRANSL_Loft_refuted.
+Proof. exact (@Loft3D_ctor). Qed.
+Print Assumptions TRANSL_Loft3D_ctor.
